@@ -84,7 +84,11 @@ RULE = (
     "vectorised integrands handing back non-contiguous and write-protected arrays, an (N, 1) column (rejected on both sides); histories on "
     "one freshly built object (shuffled calls of both routes with changing chunk sizes, the first call possibly the point-by-point route "
     "with a non-default size, size / points / weights and the refusing methods in between; every answer against the model and bit-identical "
-    "to the earlier answer of the same call); get_localgrid / moments called in every argument form (refusal on both sides). non-trivial = at least 2 domains and a chunk "
+    "to the earlier answer of the same call); get_localgrid / moments called in every argument form (refusal on both sides). Kinds of the integrand's RETURN value in both "
+    "routes: complex128 / complex64 / Python complex (a plane wave on top of the real value; sent to the real model as two tables, real and "
+    "imaginary parts), np.longdouble, float32, int, bool, 0-d arrays, and kinds changing from point to point within one run; the kind of the "
+    "result must follow (complex values -> complex result, longdouble -> longdouble, otherwise real) for every chunk size >= 1; the oracle's "
+    "nested product quadrature is in complex arithmetic. non-trivial = at least 2 domains and a chunk "
     "size >= 1 not dividing the total (point-by-point), or at least 2 domains (vectorised / structure)"
 )
 TRUSTED_BASE = [
@@ -105,6 +109,7 @@ ASSUMPTIONS = [
 # The integrand family, as source text so that replay snippets are self-contained.
 INTEGRAND_SRC = '''
 import numpy as np
+COMPLEX_RET = ("complex128", "complex64", "pycomplex", "mixed")
 class Integrand:
     # kind 'sep': prod_k (c0[k] + c1[k] t_k + c2[k] t_k^2);  kind 'nonsep': exp(-0.3 s^2) + sum_k t_k t_{k+1} + 0.1 s,
     # s = sum_k c1[k] t_k;  t_k = a[k] * x_k for a scalar point (dims[k] = 1: grid points of shape (N,)), a[k] * x_k[0] for a
@@ -112,7 +117,9 @@ class Integrand:
     # Works pointwise and with an array of points as the last argument.
     # ret: the type in which the value is handed back: float64 (NumPy scalar / array), float32, int (Python int / int64 array
     # holding rint(3 v)), int32, bool (v > 0.9; Python bool / bool array), list (Python float / list of floats), 0d (0-d array / array),
-    # strided / readonly (NumPy scalar / a non-contiguous resp. write-protected array), a1 (one-element array of shape (1,) / array).
+    # strided / readonly (NumPy scalar / a non-contiguous resp. write-protected array), a1 (one-element array of shape (1,) / array),
+    # longdouble (np.longdouble scalar / array), complex128 / complex64 / pycomplex (the value times a plane wave, as NumPy complex
+    # scalar / array resp. Python complex / list), mixed (the kind of the value changes from point to point).
     # scale: factor on the value (1e-300 ... 1e200); zero: None, "all" (the integrand is exactly 0 everywhere) or a number z (exactly 0
     # wherever the coordinate t_0 of the FIRST domain is below z: whole blocks of the product order); shift: every coordinate of every
     # point is read as x - shift (grids translated by an exactly representable amount).
@@ -177,11 +184,34 @@ class Integrand:
             return a
         if ret == "a1":
             return a.reshape(1) if scalar else a
+        if ret == "longdouble":
+            return np.longdouble(a) if scalar else a.astype(np.longdouble)
+        if ret in COMPLEX_RET:
+            # a plane wave on top of the real value: v = r exp(i theta), theta = sum_k (0.9 + 0.4 k) t_k
+            z = a * np.exp(1j * self.theta(*args))
+            if ret == "complex64":
+                return np.complex64(z) if scalar else z.astype(np.complex64)
+            if ret == "pycomplex":            # Python complex point by point; a list of Python complex (two or more domains: see the
+                return complex(z) if scalar else (z.tolist() if len(args) > 1 else z)     # list-valued finding) from the vectorised call
+            if ret == "complex128":
+                return np.complex128(z) if scalar else z
+            # mixed: the KIND of the value changes from point to point (Python float / 0-d float64 array / Python complex / Python int /
+            # Python bool / np.float32 holding a float32-representable number); the vectorised call hands back the same numbers as one
+            # complex128 array
+            sel = np.floor(np.abs(a) * 997.0) % 6
+            v = np.where(sel == 2, z, np.where(sel == 3, np.rint(3 * a), np.where(sel == 4, (a > 0.9) * 1.0, np.where(sel == 5, np.rint(8 * a) / 8, a)))) + 0j
+            if not scalar:
+                return v
+            k = int(sel)
+            return [float(v.real), np.array(float(v.real)), complex(v), int(v.real), bool(v.real), np.float32(v.real)][k]
         raise ValueError(ret)
+    def theta(self, *args):
+        return sum((0.9 + 0.4 * k) * self.t(k, x) for k, x in enumerate(args))
     def factor(self, k, x):
         # the k-th factor of a separable integrand (the scale is put on the first factor; not meaningful with `zero`)
         t = self.t(k, x)
-        return (self.c0[k] + self.c1[k] * t + self.c2[k] * t * t) * (self.scale if k == 0 else 1.0)
+        wave = np.exp(1j * (0.9 + 0.4 * k) * t) if self.ret in ("complex128", "pycomplex") else 1.0
+        return (self.c0[k] + self.c1[k] * t + self.c2[k] * t * t) * (self.scale if k == 0 else 1.0) * wave
 '''
 _ns = {}
 exec(INTEGRAND_SRC, _ns)
@@ -229,7 +259,8 @@ def run(mg, f, cfg, kind, c=None):
 exec(BUILD_SRC, _ns)
 build, run = _ns["build"], _ns["run"]
 CFG_KEYS = ("mode", "nd", "dims", "pts", "wts", "par", "layout", "ctype", "call")
-EXACT_RET = ("float64", "list", "0d", "strided", "readonly")           # kinds that hand back the float64 value unchanged
+EXACT_RET = ("float64", "list", "0d", "strided", "readonly", "longdouble", "complex128", "pycomplex")   # kinds that hand back the value unrounded
+COMPLEX_RET = _ns["COMPLEX_RET"]
 SINGLE = ("repeat", "list-same")               # modes with one grid object in every domain
 
 
@@ -249,7 +280,7 @@ def _total(cfg):
 def _config(ctx: Ctx, cap: int, nd=None, mode=None, sizes=None, plain=False, **force):
     """-> dict(mode, nd, dims, pts, wts, integrand parameters, argument kinds).
     `sizes`: sizes of the generated grids; `plain`: none of the random extras (zero weights, scales, zero blocks, shift);
-    `force`: extras switched on (zero_w='lead'|'some'|'all-first', wexp=[exponent per grid], fscale=x, zero='all'|'lead'|'mid', shift=k)."""
+    `force`: extras switched on (ret=<kind of the integrand's values>, zero_w='lead'|'some'|'all-first', wexp=[exponent per grid], fscale=x, zero='all'|'lead'|'mid', shift=k)."""
     rng = ctx.rng
     nd = nd or rng.choice([1, 2, 2, 3, 3, 4])
     if mode is None:
@@ -323,8 +354,11 @@ def _config(ctx: Ctx, cap: int, nd=None, mode=None, sizes=None, plain=False, **f
         c0=[_r(rng.uniform(0.5, 1.5)) for _ in range(nd)],
         c1=[_r(rng.uniform(-1, 1)) for _ in range(nd)],
         c2=[_r(rng.uniform(-0.5, 0.5)) for _ in range(nd)],
-        ret=rng.choice(["float64"] * 6 + ["float32", "int", "int32", "bool", "list", "0d", "strided", "readonly"]),
+        ret=rng.choice(["float64"] * 8 + ["float32", "int", "int32", "bool", "list", "0d", "strided", "readonly", "longdouble",
+                        "complex128", "complex128", "complex64", "pycomplex", "mixed"]),
     )
+    if ex.get("ret"):
+        par["ret"] = ex["ret"]
     if nd == 1 and par["ret"] == "list":
         par["ret"] = "0d"      # a list-valued vectorised integrand on ONE domain is a listed finding (probed by the oracle under its own key)
     if fscale != 1.0:
@@ -357,12 +391,31 @@ def _spec(cfg):
 
 
 def _table(doms, f):
-    """values of f over the product set, own mixed-radix loop (last domain fastest)."""
+    """values of f (as complex numbers) over the product set, own mixed-radix loop (last domain fastest)."""
     sizes = [d.size for d in doms]
     out = []
     for idx in np.ndindex(*sizes):
-        out.append(float(np.asarray(f(*[d.points[i] for d, i in zip(doms, idx)]))))
+        out.append(complex(np.asarray(f(*[d.points[i] for d, i in zip(doms, idx)]))))
     return out
+
+
+def _cclose(a, b, rtol, scale):
+    """complex results: real and imaginary parts each within rtol * scale (nan / inf as in `close`)"""
+    a, b = complex(a), complex(b)
+    return close(a.real, b.real, rtol=rtol, scale=scale) and close(a.imag, b.imag, rtol=rtol, scale=scale)
+
+
+def _result_kind(x):
+    """the kind of what integrate handed back: complex / longdouble / real"""
+    x = np.asarray(x)
+    return "complex" if np.iscomplexobj(x) else "longdouble" if x.dtype == np.longdouble and np.dtype(np.longdouble).itemsize > 8 else "real"
+
+
+def _expected_kind(ret):
+    """complex values give a complex integral, extended-precision values an extended-precision one, every other kind a real one
+    (mixed kinds: complex unless no complex value occurred)"""
+    return {"complex128": ("complex",), "complex64": ("complex",), "pycomplex": ("complex",), "longdouble": ("longdouble",),
+            "mixed": ("complex", "real")}.get(ret, ("real",))
 
 
 def _chunk_sizes(total):
@@ -458,6 +511,14 @@ def corr(ctx: Ctx):
              _config(ctx, 300, 3, "list", plain=True, wexp=[-150, 12, 150], fscale=1e100), _config(ctx, 300, 3, "repeat", plain=True, wexp=[60]),
              _config(ctx, 300, 2, "list", plain=True, wexp=[-100, 0], fscale=1e-100),
              _config(ctx, 300, 2, "list", plain=True, shift=20), _config(ctx, 300, 3, "list-aba", plain=True, shift=10)]
+    # the kind of the integrand's VALUES, both routes: complex128 / complex64 / Python complex (a plane wave on top of the real
+    # value), np.longdouble, and kinds changing from point to point
+    cfgs += [_config(ctx, 300, 2, "list", plain=True, ret="complex128"), _config(ctx, 300, 3, "list", plain=True, ret="complex128"),
+             _config(ctx, 300, 1, "list", plain=True, ret="complex128"), _config(ctx, 300, 2, "repeat", plain=True, ret="complex64"),
+             _config(ctx, 300, 3, "list-aba", plain=True, ret="pycomplex"), _config(ctx, 300, 1, "repeat", plain=True, ret="pycomplex"),
+             _config(ctx, 300, 2, "list", plain=True, ret="mixed"), _config(ctx, 300, 3, "repeat", plain=True, ret="mixed"),
+             _config(ctx, 300, 2, "list", plain=True, ret="longdouble"), _config(ctx, 300, 1, "list", plain=True, ret="longdouble"),
+             _config(ctx, 300, 2, "list", plain=True, ret="complex128", zero="lead"), _config(ctx, 300, 2, "list", plain=True, ret="complex128", fscale=1e-300)]
     nfixed = len(cfgs)
     # class 7: the only literal threshold of integrate is the default chunk size 6000: totals next to it (the default
     # then splits into 6000 + 1 / 6000 + 84 / does not split), called with the default and with explicit sizes around it
@@ -474,7 +535,10 @@ def corr(ctx: Ctx):
         tab = _table(doms, f)
         cfg["_tab"] = tab
         spec = _spec(cfg)
-        ops = [("struct", None, "struct " + spec), ("vec", None, f"vec {spec} {fvec(tab)}")]
+        # a complex-valued integrand goes to the (real) model as two tables, real and imaginary parts (the nested product sum
+        # is linear over the reals; the theorems hold over every commutative semiring, the complex numbers included)
+        parts = [("re", fvec([z.real for z in tab]))] + ([("im", fvec([z.imag for z in tab]))] if cfg["par"]["ret"] in COMPLEX_RET else [])
+        ops = [("struct", None, "struct " + spec), ("vec", None, f"vec {spec}")]
         cs = _chunk_sizes(cfg["total"])
         if cfg.get("_big"):
             ops = ops[1:]
@@ -489,21 +553,22 @@ def corr(ctx: Ctx):
             cs = [0] + cs
         for c in cs:
             if c >= 0:
-                ops.append(("nonvec", c, f"nonvec {c} {spec} {fvec(tab)}"))
+                ops.append(("nonvec", c, f"nonvec {c} {spec}"))
         if ci % 6 == 0 or cfg.get("_big"):
-            ops.append(("nonvec", None, f"nonvec 6000 {spec} {fvec(tab)}"))          # the default chunk size of the code
+            ops.append(("nonvec", None, f"nonvec 6000 {spec}"))          # the default chunk size of the code
         if ci % 9 == 0:
-            ops.append(("vecbad", None, f"vecbad {spec} {fvec(tab)}"))
+            ops.append(("vecbad", None, f"vecbad {spec}"))
         cfg["_ops"] = [(k, c) for k, c, _ in ops if k in ("vec", "nonvec")]
         for kind, c, text in ops:
-            for who in ("model", "generated"):
-                lines.append(("C18." if who == "model" else "C18.gen-") + text)
-                meta.append((ci, kind, c, who))
+            for part, tabtext in (parts if kind != "struct" else [("re", "")]):
+                for who in ("model", "generated"):
+                    lines.append((("C18." if who == "model" else "C18.gen-") + text + " " + tabtext).rstrip())
+                    meta.append((ci, kind, c, who, part))
     ans = driver_batch(lines)
     built = {}
     memo = {}
     model_ans = {}
-    for (ci, kind, c, who), a in zip(meta, ans):
+    for (ci, kind, c, who, part), a in zip(meta, ans):
         cfg = cfgs[ci]
         if ci not in built:
             built.clear()
@@ -517,6 +582,7 @@ def corr(ctx: Ctx):
         total = cfg["total"]
         wit = dict(pub, op=kind, chunk=c, answered_by=who)
         sfx = "" if who == "model" else ":generated"
+        ret = cfg["par"]["ret"]
         if kind == "struct":
             ctx.count(["struct", who, case], nontrivial=cfg["nd"] >= 2, tag=f"struct:{cfg['mode']}:nd{cfg['nd']}" + sfx)
             t = Tokens(a)
@@ -563,7 +629,7 @@ def corr(ctx: Ctx):
             wprod = np.ones(())
             for d in doms:
                 wprod = np.multiply.outer(wprod, d.weights)
-            memo["scale"] = float(np.abs(wprod.ravel() * np.array(cfg["_tab"])).sum())
+            memo["scale"] = float(np.abs(wprod.ravel() * np.array(cfg["_tab"])).sum())          # sum of |w f|, f complex
             cfg["_scale"] = memo["scale"]
         scale = memo["scale"]
         key = (kind, c)
@@ -572,9 +638,14 @@ def corr(ctx: Ctx):
                 try:
                     if kind == "vecbad":
                         if ci % 18 == 0:                          # one value too few / an (N, 1) column instead of (N,)
-                            return "ok", float(mg.integrate(lambda *xs: np.asarray(f(*xs))[1:]))
-                        return "ok", float(mg.integrate(lambda *xs: np.asarray(f(*xs)).reshape(-1, 1)))
-                    return "ok", float(run(mg, f, cfg, kind, c))
+                            return "ok", complex(mg.integrate(lambda *xs: np.asarray(f(*xs))[1:]))
+                        return "ok", complex(mg.integrate(lambda *xs: np.asarray(f(*xs)).reshape(-1, 1)))
+                    res = run(mg, f, cfg, kind, c)
+                    # the kind of the result follows the kind of the values (c = 0 sums nothing: outside the property)
+                    if c != 0 and _result_kind(res) not in _expected_kind(ret):
+                        ctx.fail("corr", f"ngrid.integrate:{kind}:result-kind", f"{kind} c={c}: integrand values of kind {ret} give a result of kind "
+                                 f"{_result_kind(res)} ({type(res).__name__} {res!r}), expected {' or '.join(_expected_kind(ret))}", witness=wit)
+                    return "ok", complex(res)
                 except ValueError:
                     return "value-error", None
                 except Exception as e:                      # nothing else is an accepted outcome
@@ -588,18 +659,18 @@ def corr(ctx: Ctx):
                     pass
                 iv2 = call()
                 ctx.distribution["variant:called-twice"] = ctx.distribution.get("variant:called-twice", 0) + 1
-                if iv2 != iv and not (iv[1] != iv[1] and iv2[1] != iv2[1]):
+                if iv2 != iv and not (iv[1] is not None and iv2[1] is not None and iv[1] != iv[1] and iv2[1] != iv2[1]):
                     ctx.fail("corr", "ngrid.integrate:state", f"{kind} c={c}: first answer {iv}, the same call again gives {iv2}", witness=wit)
             memo[key] = iv
         iv = memo[key]
         if kind == "vec":
-            ctx.count(["vec", who, case], nontrivial=cfg["nd"] >= 2, tag="vec:" + ("shortcut" if cfg["nd"] == 1 else cfg["mode"]) + sfx)
+            ctx.count(["vec", who, part, case], nontrivial=cfg["nd"] >= 2, tag="vec:" + ("shortcut" if cfg["nd"] == 1 else cfg["mode"]) + sfx)
         elif kind == "vecbad":
-            ctx.count(["vecbad", who, case], nontrivial=False, tag="vec:wrong-shape" + (":drop-one" if ci % 18 == 0 else ":column") + sfx)
+            ctx.count(["vecbad", who, part, case], nontrivial=False, tag="vec:wrong-shape" + (":drop-one" if ci % 18 == 0 else ":column") + sfx)
         else:
             cc = 6000 if c is None else c
             nontriv = cfg["nd"] >= 2 and cc >= 1 and total % cc != 0
-            ctx.count(["nonvec", who, c, case], nontrivial=nontriv,
+            ctx.count(["nonvec", who, c, part, case], nontrivial=nontriv,
                       tag="nonvec:" + ("default" if c is None else "c=0" if c == 0 else "c=1" if c == 1 else "c>total" if c > total else "c=total" if c == total
                                        else "divides" if total % c == 0 else "not-dividing") + (":total>6000" if total > 6000 else "") + sfx)
         t = Tokens(a)
@@ -610,9 +681,13 @@ def corr(ctx: Ctx):
         if tag == "ok":
             mv = t.flt()
             if who == "model" and kind in ("vec", "nonvec"):
-                model_ans[(ci, kind, c)] = mv
-            if not close(iv[1], mv, rtol=1e-11, scale=scale):
-                ctx.fail("corr", f"ngrid.integrate:{kind}" + sfx, f"{kind} c={c}: implementation {iv[1]!r}, {who} {mv!r} (scale {scale:.3g})", witness=wit)
+                model_ans[(ci, kind, c, part)] = mv
+            got = iv[1].real if part == "re" else iv[1].imag
+            if not close(got, mv, rtol=1e-11, scale=scale):
+                ctx.fail("corr", f"ngrid.integrate:{kind}" + sfx, f"{kind} c={c}: implementation {iv[1]!r}, its {'real' if part == 're' else 'imaginary'} part by the {who} {mv!r} "
+                         f"(scale {scale:.3g}; integrand values of kind {ret})", witness=wit)
+            if part == "re" and ret not in COMPLEX_RET and iv[1].imag != 0.0:
+                ctx.fail("corr", f"ngrid.integrate:{kind}" + sfx, f"{kind} c={c}: a real-valued integrand ({ret}) gives the complex result {iv[1]!r}", witness=wit)
     _histories(ctx, cfgs, model_ans, nfixed)
     _refusals(ctx, cfgs, nfixed)
     # _chunked_iterator lengths (sizes as int and as np.int64)
@@ -657,7 +732,7 @@ def _histories(ctx, cfgs, model_ans, nfixed):
     for ci, cfg in enumerate(cfgs):
         if not (ci < nfixed or ci % 3 == 0) or cfg["total"] > 320 or cfg.get("_big"):
             continue
-        ops = sorted({o for o in cfg["_ops"] if (o[1] is None or o[1] >= 1) and (ci,) + o in model_ans}, key=lambda o: (o[0], o[1] or 0))
+        ops = sorted({o for o in cfg["_ops"] if (o[1] is None or o[1] >= 1) and (ci,) + o + ("re",) in model_ans}, key=lambda o: (o[0], o[1] or 0))
         if len(ops) < 2:
             continue
         seq = ops * 2
@@ -687,14 +762,14 @@ def _histories(ctx, cfgs, model_ans, nfixed):
                         ctx.fail("corr", "ngrid.refusal:history", f"{'get_localgrid' if j == 1 else 'moments'} raised {type(e).__name__} instead of NotImplementedError", witness=dict(_pub(cfg), history=trace))
                     trace.append(["get_localgrid" if j == 1 else "moments"])
             try:
-                got = float(run(mg, f, cfg, kind, c))
+                got = complex(run(mg, f, cfg, kind, c))
             except Exception as e:
                 ctx.fail("corr", "ngrid.integrate:history", f"call {i} ({kind}, chunk {c}) of the history {trace} raised {type(e).__name__}: {e}", witness=dict(_pub(cfg), history=trace + [[kind, c]], chunk=c))
                 ok = False
                 break
             trace.append([kind, c])
-            want = model_ans[(ci, kind, c)]
-            if not close(got, want, rtol=1e-11, scale=cfg["_scale"]):
+            want = complex(model_ans[(ci, kind, c, "re")], model_ans.get((ci, kind, c, "im"), 0.0))
+            if not _cclose(got, want, 1e-11, cfg["_scale"]):
                 ctx.fail("corr", "ngrid.integrate:history", f"call {i} ({kind}, chunk {c}) after {trace[:-1]}: implementation {got!r}, model {want!r}", witness=dict(_pub(cfg), history=trace, chunk=c))
                 ok = False
             if (kind, c) in seen and seen[(kind, c)] != got and not (got != got and seen[(kind, c)] != seen[(kind, c)]):
@@ -744,25 +819,30 @@ f = Integrand(**cfg['par'])
 terms = []
 def rec(k, args, w):
     if k == len(doms):
-        terms.append(w * float(np.asarray(f(*args)))); return
+        terms.append(w * complex(np.asarray(f(*args)))); return
     for i in range(doms[k].size):
         rec(k + 1, args + [doms[k].points[i]], w * float(doms[k].weights[i]))
 rec(0, [], 1.0)
-want, scale = math.fsum(terms), math.fsum(abs(t) for t in terms) + 1e-300
+csum = lambda zs: complex(math.fsum(z.real for z in zs), math.fsum(z.imag for z in zs))       # complex arithmetic throughout
+want, scale = csum(terms), math.fsum(abs(t) for t in terms) + 1e-300
+kinds = {kinds!r}          # admissible kinds of the result for this kind of integrand values
+def kind_of(x):
+    x = np.asarray(x)
+    return 'complex' if np.iscomplexobj(x) else 'longdouble' if x.dtype == np.longdouble and np.dtype(np.longdouble).itemsize > 8 else 'real'
 what = {what!r}
 try:
-    if what == 'vec':
-        got = float(run(mg, f, cfg, 'vec'))
-    elif what == 'nonvec':
-        got = float(run(mg, f, cfg, 'nonvec', {chunk}))
-    elif what == 'separable':
-        got = float(run(mg, f, cfg, 'vec'))
-        want = math.prod(math.fsum(float(d.weights[i]) * float(f.factor(k, d.points[i])) for i in range(d.size)) for k, d in enumerate(doms))
+    if what == 'separable':
+        got = complex(run(mg, f, cfg, 'vec'))
+        want = 1.0 + 0j
+        for k, d in enumerate(doms):
+            want = want * csum([float(d.weights[i]) * complex(f.factor(k, d.points[i])) for i in range(d.size)])
     elif what == 'history':
         # one freshly built object, the calls in this order; every answer is the product quadrature
         got, seq, seen = want, {seq!r}, {{}}
         for kind, c in seq:
-            v = float(run(mg, f, cfg, kind, c))
+            res = run(mg, f, cfg, kind, c)
+            assert kind_of(res) in kinds, f'history {{seq}}: the call ({{kind}}, chunk {{c}}) hands back a result of kind {{kind_of(res)}} ({{res!r}}) for integrand values of kind {{cfg["par"]["ret"]}}'
+            v = complex(res)
             assert seen.setdefault((kind, c), v) == v or v != v, f'history {{seq}}: the call ({{kind}}, chunk {{c}}) gives {{v!r}}, the same call earlier on this object gave {{seen[(kind, c)]!r}}'
             assert abs(v - want) <= 1e-10 * scale, f'history {{seq}}: the call ({{kind}}, chunk {{c}}) gives {{v!r}}, nested product quadrature {{want!r}}'
     elif what == 'translated':
@@ -771,8 +851,8 @@ try:
         cfg0 = dict(cfg, pts=[(np.array(p) - sh).tolist() for p in cfg['pts']], par=dict(cfg['par'], shift=0.0))
         mg0 = build(cfg0, Grid, MultiDomainGrid)[0]
         f0 = Integrand(**cfg0['par'])
-        got, want = float(run(mg, f, cfg, 'vec')), float(run(mg0, f0, cfg0, 'vec'))
-        assert float(run(mg, f, cfg, 'nonvec', {chunk} or None)) == float(run(mg0, f0, cfg0, 'nonvec', {chunk} or None)), 'point-by-point route differs on the translated grids'
+        got, want = complex(run(mg, f, cfg, 'vec')), complex(run(mg0, f0, cfg0, 'vec'))
+        assert complex(run(mg, f, cfg, 'nonvec', {chunk} or None)) == complex(run(mg0, f0, cfg0, 'nonvec', {chunk} or None)), 'point-by-point route differs on the translated grids'
         scale = 1e-5 * scale
     elif what == 'refusal':
         got = want
@@ -782,7 +862,7 @@ try:
                 raise AssertionError(f'MultiDomainGrid.{{name}} returned instead of raising NotImplementedError')
             except NotImplementedError:
                 pass
-        got = float(run(mg, f, cfg, 'vec'))
+        got = complex(run(mg, f, cfg, 'vec'))
     elif what == 'size':
         got, want, scale = int(mg.size), len(terms), 0
         assert got == want == len(list(mg.points)) == len(list(mg.weights)), (got, want)
@@ -847,7 +927,7 @@ def _oracle_cfg(ctx: Ctx, cfg, chunks=None):
 
     def rec(k, args, idx, w):
         if k == len(doms):
-            terms.append(w * float(np.asarray(f(*args))))
+            terms.append(w * complex(np.asarray(f(*args))))
             combos.append(tuple(idx))
             wlist.append(w)
             return
@@ -855,11 +935,15 @@ def _oracle_cfg(ctx: Ctx, cfg, chunks=None):
             rec(k + 1, args + [doms[k].points[i]], idx + [i], w * float(doms[k].weights[i]))
 
     rec(0, [], [], 1.0)
-    want = math.fsum(terms)
+    def csum(zs):               # complex arithmetic throughout: the reference for complex-valued integrands
+        return complex(math.fsum(z.real for z in zs), math.fsum(z.imag for z in zs))
+
+    want = csum(terms)
     scale = math.fsum(abs(t) for t in terms)
+    ret = cfg["par"]["ret"]
 
     def snip(what, chunk=0, seq=()):
-        return SNIPPET.format(integrand_src=INTEGRAND_SRC, build_src=BUILD_SRC, cfg=pub, what=what, chunk=chunk, seq=seq)
+        return SNIPPET.format(integrand_src=INTEGRAND_SRC, build_src=BUILD_SRC, cfg=pub, what=what, chunk=chunk, seq=seq, kinds=_expected_kind(cfg["par"]["ret"]))
 
     # size / enumerations
     ipts, iw = list(mg.points), [float(x) for x in mg.weights]
@@ -882,12 +966,17 @@ def _oracle_cfg(ctx: Ctx, cfg, chunks=None):
             calls.append(("vec", None) if what == "vec" else ("nonvec", chunk))
         sn = snip("separable") if what == "separable" else snip("history", seq=list(calls))
         try:
-            got = float(fn())
+            res = fn()
+            if _result_kind(res) not in _expected_kind(ret):
+                ctx.fail("oracle", "ngrid.integrate:result-kind", f"{what}" + (f" with chunk size {chunk}" if chunk is not None else "") + f": integrand values of kind {ret} give a result of kind "
+                         f"{_result_kind(res)} ({type(res).__name__} {res!r}), expected {' or '.join(_expected_kind(ret))}; nested product quadrature in complex arithmetic {ref!r}",
+                         witness=dict(pub, chunk=chunk, history=list(calls)), snippet=sn)
+            got = complex(res)
         except Exception as e:
             ctx.fail("oracle", key, f"{what}: raised {type(e).__name__}: {e} (integrand values handed back as {cfg['par']['ret']}, chunk size as {cfg.get('ctype')}; calls on this object so far {calls})",
                      witness=dict(pub, chunk=chunk, history=list(calls)), snippet=sn)
             return None
-        if not close(got, ref, rtol=1e-10, scale=scale):
+        if not _cclose(got, ref, 1e-10, scale):
             ctx.fail("oracle", key, f"{what}" + (f" with chunk size {chunk}" if chunk is not None else "") + f": integrate gives {got!r}, nested product quadrature {ref!r} (total {len(terms)}; calls on this object so far {calls})",
                      witness=dict(pub, chunk=chunk, got=got, want=ref, history=list(calls)), snippet=sn)
         return got
@@ -929,13 +1018,13 @@ def _oracle_cfg(ctx: Ctx, cfg, chunks=None):
                 except Exception as e:
                     ctx.fail("oracle", "ngrid.refusal", f"{'moments' if i == 1 else 'get_localgrid'} of a multi-domain grid raised {type(e).__name__} ({e}) instead of NotImplementedError",
                              witness=pub, snippet=snip("refusal"))
-            got = float(run(mgh, fh, cfg, kind, c))
+            got = complex(run(mgh, fh, cfg, kind, c))
         except Exception as e:
             ctx.fail("oracle", "ngrid.integrate:history", f"call {i} ({kind}, chunk {c}) after {done} on one object raised {type(e).__name__}: {e}",
                      witness=dict(pub, history=seq[: i + 1]), snippet=snip("history", seq=seq[: i + 1]))
             break
         done.append((kind, c))
-        if not close(got, want, rtol=1e-10, scale=scale):
+        if not _cclose(got, want, 1e-10, scale):
             ctx.fail("oracle", "ngrid.integrate:history", f"on one object, after the calls {done[:-1]}, the call ({kind}, chunk {c}) gives {got!r}, nested product quadrature {want!r}",
                      witness=dict(pub, history=done, got=got, want=want), snippet=snip("history", seq=done))
             break
@@ -947,7 +1036,7 @@ def _oracle_cfg(ctx: Ctx, cfg, chunks=None):
         f0 = Integrand(**cfg0["par"])
         for kind, c in (("vec", None), ("nonvec", cs[0])):
             try:
-                a, b = float(run(mg, f, cfg, kind, c)), float(run(mg0, f0, cfg0, kind, c))
+                a, b = complex(run(mg, f, cfg, kind, c)), complex(run(mg0, f0, cfg0, kind, c))
             except Exception as e:
                 ctx.fail("oracle", "ngrid.integrate:translated", f"{kind}: raised {type(e).__name__}: {e}", witness=dict(pub, chunk=c), snippet=snip("translated", c or 0))
                 continue
@@ -955,7 +1044,9 @@ def _oracle_cfg(ctx: Ctx, cfg, chunks=None):
                 ctx.fail("oracle", "ngrid.integrate:translated", f"{kind} (chunk {c}): {a!r} on the grids translated by {sh:g}, {b!r} on the untranslated ones (same integrand values)",
                          witness=dict(pub, chunk=c, got=a, want=b), snippet=snip("translated", c or 0))
     if cfg["par"]["kind"] == "sep" and cfg["par"]["ret"] in EXACT_RET and cfg["par"].get("zero") is None:
-        prod = math.prod(math.fsum(float(d.weights[i]) * float(f.factor(k, d.points[i])) for i in range(d.size)) for k, d in enumerate(doms))
+        prod = 1.0 + 0j
+        for k, d in enumerate(doms):
+            prod = prod * csum([float(d.weights[i]) * complex(f.factor(k, d.points[i])) for i in range(d.size)])
         attempt("ngrid.integrate:separable", "separable", None, lambda: run(mg, f, cfg, "vec"), prod)
 
 
@@ -980,7 +1071,12 @@ def oracle(ctx: Ctx, budget: str):
                dict(nd=2, mode="list", plain=True, fscale=1e-300), dict(nd=3, mode="list", plain=True, fscale=1e-50), dict(nd=3, mode="list", plain=True, fscale=1e12),
                dict(nd=2, mode="repeat", plain=True, fscale=1e200), dict(nd=3, mode="list", plain=True, wexp=[150, 0, -150]),
                dict(nd=3, mode="list", plain=True, wexp=[-150, 12, 150], fscale=1e100), dict(nd=3, mode="repeat", plain=True, wexp=[60]),
-               dict(nd=2, mode="list", plain=True, shift=20), dict(nd=3, mode="list-aba", plain=True, shift=10), dict(nd=1, mode="list", plain=True, shift=15)]
+               dict(nd=2, mode="list", plain=True, shift=20), dict(nd=3, mode="list-aba", plain=True, shift=10), dict(nd=1, mode="list", plain=True, shift=15),
+               # kinds of the integrand's values
+               dict(nd=2, mode="list", plain=True, ret="complex128"), dict(nd=3, mode="list", plain=True, ret="complex128"), dict(nd=1, mode="list", plain=True, ret="complex128"),
+               dict(nd=2, mode="repeat", plain=True, ret="complex64"), dict(nd=3, mode="list-aba", plain=True, ret="pycomplex"), dict(nd=2, mode="list", plain=True, ret="mixed"),
+               dict(nd=3, mode="repeat", plain=True, ret="mixed"), dict(nd=2, mode="list", plain=True, ret="longdouble"), dict(nd=2, mode="list", plain=True, ret="float32"),
+               dict(nd=2, mode="list", plain=True, ret="int"), dict(nd=2, mode="list", plain=True, ret="bool"), dict(nd=2, mode="list", plain=True, ret="0d")]
     for kw in special * (1 if budget == "small" else 6):
         _oracle_cfg(ctx, _config(ctx, 150, **kw))
     # class 7: a total just above the default chunk size 6000 (the default splits into 6000 + 1), called with the default
@@ -1025,33 +1121,33 @@ def oracle(ctx: Ctx, budget: str):
             ctx.fail("oracle", "ngrid.integrate:vectorized:list-valued" + (":single-domain" if nd == 1 else ""),
                      f"vectorised integrand returning a Python list, {nd} domain(s): {bad}; the point-by-point route gives "
                      f"{float(mg.integrate(f, non_vectorized=True))!r}", witness=_pub(cfg),
-                     snippet=SNIPPET.format(integrand_src=INTEGRAND_SRC, build_src=BUILD_SRC, cfg=_pub(cfg), what="history", chunk=0, seq=[("vec", None)]))
+                     snippet=SNIPPET.format(integrand_src=INTEGRAND_SRC, build_src=BUILD_SRC, cfg=_pub(cfg), what="history", chunk=0, seq=[("vec", None)], kinds=("real",)))
     # the library's own grid classes as domains
     for it in range(6 if budget == "small" else 60):
         nd = ctx.rng.randint(1, 3)
         doms = _real_grids(ctx, nd)
         dims = [1 if d.points.ndim == 1 else 3 for d in doms]
         par = dict(kind=ctx.rng.choice(["sep", "nonsep"]), dims=dims, a=[0.7] * nd, d=[[0.3, -0.5, 0.8]] * nd,
-                   c0=[1.0] * nd, c1=[0.5, -0.4, 0.9][:nd], c2=[0.25, 0.1, -0.2][:nd])
+                   c0=[1.0] * nd, c1=[0.5, -0.4, 0.9][:nd], c2=[0.25, 0.1, -0.2][:nd], ret=ctx.rng.choice(["float64", "complex128"]))
         f = Integrand(**par)
         mg = ng.MultiDomainGrid(doms)
         terms = []
 
         def rec2(k, args, w):
             if k == len(doms):
-                terms.append(w * float(f(*args)))
+                terms.append(w * complex(f(*args)))
                 return
             for i in range(doms[k].size):
                 rec2(k + 1, args + [doms[k].points[i]], w * float(doms[k].weights[i]))
 
         rec2(0, [], 1.0)
-        want, scale = math.fsum(terms), math.fsum(abs(t) for t in terms) + 1e-300
+        want, scale = complex(math.fsum(t.real for t in terms), math.fsum(t.imag for t in terms)), math.fsum(abs(t) for t in terms) + 1e-300
         tot = len(terms)
-        res = [("vectorized", float(mg.integrate(f)))]
+        res = [("vectorized", complex(mg.integrate(f)))]
         for c in (1, max(1, tot - 1), tot + 1):
-            res.append((f"chunk", float(mg.integrate(f, non_vectorized=True, integration_chunk_size=c))))
+            res.append((f"chunk", complex(mg.integrate(f, non_vectorized=True, integration_chunk_size=c))))
         for key, got in res:
-            if not close(got, want, rtol=1e-10, scale=scale) or int(mg.size) != tot:
+            if not _cclose(got, want, 1e-10, scale) or int(mg.size) != tot:
                 ctx.fail("oracle", f"ngrid.integrate:{key}:library-grids",
                          f"{[type(d).__name__ + str(d.size) for d in doms]}: integrate {got!r}, nested product quadrature {want!r}, size {mg.size} vs {tot}",
                          witness=dict(grids=[type(d).__name__ + str(d.size) for d in doms], par=par))
